@@ -508,8 +508,8 @@ Proof.
   assert (Hc : comp = cand1 ivar ovar \/ comp = cand2 ivar ovar).
   { destruct (cmp_eqb_spec comp (cand1 ivar ovar)); [left; assumption|].
     destruct (cmp_eqb_spec comp (cand2 ivar ovar)); [right; assumption|discriminate]. }
-  destruct (first_char (vname ivar)) as [variant|]; [|discriminate].
-  destruct (choose_fresh_variable_names (variables F) variant 1) as [|fvar rest] eqn:CF; [discriminate|].
+  cbv zeta.
+  destruct (choose_fresh_variable_names (variables F) (fresh_variant (vname ivar)) 1) as [|fvar rest] eqn:CF; [discriminate|].
   apply choose_fresh_one_fresh in CF.
   destruct F as [a|g|c l r|q vars f]; try discriminate.
   destruct (substitute f ovar (GInt (IVar fvar))) as [f'|] eqn:Sub; [|discriminate].
